@@ -10,10 +10,15 @@ from framework import PropertyCheck, Scenario
 from impl import instance_line, lst, build_instance
 
 
-def best_makespan(instance, flt):
+def best_makespan(instance, flt, observers=()):
     """Exhaustive search over the REAL dispatcher's tree of (available operation, eligible machine) choices,
     memoised on the dispatcher state; returns the best complete makespan."""
     d = jsl.Dispatcher(instance, ready_operations_filter=flt)
+    if observers:
+        # the dispatcher as the environments set it up: feature observers subscribed, in the given order
+        from job_shop_lib.dispatching.feature_observers import feature_observer_factory
+        for name in observers:
+            feature_observer_factory(name, dispatcher=d)
     memo = {}
 
     def rec(history):
@@ -49,13 +54,13 @@ class Check(PropertyCheck):
             "and with the documented criterion; (b) defaults probe: both environments and DispatchingRuleSolver install "
             "the filter by default; (c) supporting search on the real code (no theorem rests on it): exhaustive memoised "
             "search of the available_operations() tree with and without the filter on small instances, optimum must "
-            "coincide; non-trivial = instance where the filter removed >=1 operation in some state")
+            "coincide - one scenario in three with feature observers subscribed as the environments do; non-trivial = instance where the filter removed >=1 operation in some state")
     ASSUMPTIONS = ["instances are valid with positive durations (as the property states)"]
     QUICK_N = 160
 
     def make_impl(self, scenario):
-        from impl_ext import ImplExt
-        return ImplExt(scenario.meta.get("filter_style", "callable"))
+        from impl_ext import ImplEnv
+        return ImplEnv(filter_style=scenario.meta.get("filter_style", "callable"))
 
     def generate(self, rng, n, tier):
         yield Scenario(["new", "mark defaults"], {"kind": "defaults"})
@@ -115,6 +120,12 @@ class Check(PropertyCheck):
             jobs = [[(ms, d + (big if rng.random() < 0.5 else 0)) for ms, d in job] for job in jobs]
             family += "+huge"
         lines = ["new", instance_line(jobs), "filter comp dom"]
+        observers = []
+        if "huge" not in family and rng.random() < 0.3:
+            # feature observers subscribed, as the environments do: they read the dispatcher from inside their callbacks
+            observers = rng.sample(["is_ready", "earliest_start_time", "is_scheduled", "duration", "remaining_operations"],
+                                   rng.randint(1, 3))
+            lines += [f"fobs {k} -" for k in observers]
         if search:
             lines.append("mark search")
         tr = gen.Tracker(jobs)
@@ -137,7 +148,7 @@ class Check(PropertyCheck):
                 lines.append("q available")
                 lines.append(f"disp {j} {p} {rng.choice(jobs[j][p][0])}")
             lines.append("q available")
-        meta = {"family": family, "flexible": gen.is_flexible(jobs), "search": search, "ops": gen.num_ops(jobs),
+        meta = {"family": family, "flexible": gen.is_flexible(jobs), "search": search, "ops": gen.num_ops(jobs), "observers": observers,
                 "filter_style": rng.choice(["callable", "enum", "str"])}
         return Scenario(lines, meta)
 
@@ -165,10 +176,11 @@ class Check(PropertyCheck):
         # break (the theorem is about the model's filter) that triggers the search below on more instances.
         if line == "mark search":
             inst = build_instance(impl.jobs)
-            with_f = best_makespan(inst, jsl.filter_dominated_operations)
+            obs = tuple(scenario.meta.get("observers", ()))
+            with_f = best_makespan(inst, jsl.filter_dominated_operations, obs)
             without = best_makespan(inst, None)
             ctx["searched"] = True
             if with_f != without:
                 res.append(("optimum-lost", f"best makespan over the filtered tree is {with_f}, over the full tree "
-                            f"{without} (instance {impl.jobs})"))
+                            f"{without} (instance {impl.jobs}" + (f", feature observers {list(obs)} subscribed)" if obs else ")")))
         return res
